@@ -183,9 +183,15 @@ def run(chk):
             hi = rng.uniform(-1, 1) * SZ + (0 if commuting else rng.uniform(-1, 1)) * SX
             chain.add_site_hamiltonian(i, hi)
             Hfull += emb(hi, i)
+        SY_ = oqupy.operators.sigma("y")
         for i in range(L2 - 1):
             chain.add_nn_hamiltonian(i, J * (SZ if commuting else SX), SZ if commuting else SX)
             Hfull += J * emb(SZ if commuting else SX, i) @ emb(SZ if commuting else SX, i + 1)
+            if not commuting:
+                # couplings whose factors are not all symmetric matrices (sx x sy, a Dzyaloshinskii-Moriya term, sz x sy)
+                for cl, cr, cj in rng.choice([[(SX, SY_, 0.4)], [(SX, SY_, 0.3), (SY_, SX, -0.3)], [(SZ, SY_, 0.5)], []]):
+                    chain.add_nn_hamiltonian(i, cj * cl, cr)
+                    Hfull += cj * emb(cl, i) @ emb(cr, i + 1)
         # two-site chains: also single-site and nearest-neighbour dissipators with rates different from one
         jumps = []
         if L2 == 2 and (rng.random() < 0.6 or it == 1):
